@@ -891,4 +891,14 @@ def rule_zeroshape(ctx):
     return r
 
 
-RULES = [rule_zeroshape, rule_combine, rule_pair, rule_adder, rule_rescale, rule_scale, rule_option, rule_fresh]
+def rule_corekey(ctx):
+    """Shared with C02-COREKEY (seed C19_12): `strip_exponent` and `check_zero` are baked into the compiled contractor;
+    the per-tree memo must be keyed by them, or the value the tree was first contracted with sticks (a later
+    `check_zero=True` is answered by a contractor that divides 0 by 0)."""
+    from .c02 import rule_corekey as src
+
+    return C.reuse_rule(ctx, src, "C02-COREKEY", "C19-COREKEY", "the per-tree contractor memo is keyed by the stripping options",
+                        lambda i: True, 1)
+
+
+RULES = [rule_corekey, rule_zeroshape, rule_combine, rule_pair, rule_adder, rule_rescale, rule_scale, rule_option, rule_fresh]
